@@ -72,9 +72,10 @@ impl Driver for PwrGroup {
             t += rng.next() % 8;
             if t > ht { open_prefix = false; }
             let cap = if small { 1200 } else { E18 / 8 };
-            let b = rng.amount(cap); let s = rng.amount(cap);
-            let br = match rng.next() % 3 { 0 => E18, 1 => E18 * 9 / 10, _ => E18 - rng.below(E18 / 2) };
-            let sr = match rng.next() % 3 { 0 => E18, 1 => E18 + rng.below(E18 / 2), _ => E18 - rng.below(E18 / 2) };
+            let dust = i % 5 == 4;      // batches whose value rounds to zero (one base unit unbonded at a rate below 1)
+            let (b, s) = if dust { ((rng.next() % 2) as u128, (rng.next() % 2) as u128) } else { (rng.amount(cap), rng.amount(cap)) };
+            let br = if dust { E18 * 9 / 10 } else { match rng.next() % 3 { 0 => E18, 1 => E18 * 9 / 10, _ => E18 - rng.below(E18 / 2) } };
+            let sr = if dust { E18 - 1 - rng.below(E18 / 2) } else { match rng.next() % 3 { 0 => E18, 1 => E18 + rng.below(E18 / 2), _ => E18 - rng.below(E18 / 2) } };
             if open_prefix { total += mulf(b, br) + mulf(s, sr); }
             bs.push(json!({"bsei": b.to_string(), "stsei": s.to_string(), "b_rate": br.to_string(), "s_rate": sr.to_string(), "time": t}));
         }
